@@ -720,8 +720,9 @@ def classify_divergence(ds, rq, row, vec, distributed):
     # ---- contract-respecting requests
     if F["gb_multi_family"] and vs == "ERR" and "GroupBy.tag_projection_v1_supports" in vec:
         return ("known", "F15d", "group_by over more than one tag family: vectorized analyzer rejects, row path answers")
-    if F["gb_entity"] and F["ob_rule"] and rs == "ERR" and "unsupported_order_by_type" in row and vs == "OK":
-        return ("known", "F15e", "group_by == entity with an index-rule order_by: row path asks storage for series order and is refused")
+    if F["gb_entity"] and F["ob_rule"] and ((rs == "ERR" and "unsupported_order_by_type" in row and vs == "OK") or
+                                            (distributed and vs == "ERR" and "unsupported_order_by_type" in vec and rs == "OK")):
+        return ("known", "F15e", "group_by == entity with an index-rule order_by: the pipeline that asks storage for series order is refused, the other answers")
     if distributed:
         if rs == "ERR" and F["ob_tag"] and F["ob_tag"] not in F["tp_tags"] and ("tag_%s_not_found" % F["ob_tag"]) in row and vs == "OK":
             return ("known", "F15h", "row liaison needs the order_by tag in the tag projection, vectorized liaison does not")
@@ -800,3 +801,660 @@ def classify_divergence(ds, rq, row, vec, distributed):
     return V("responses differ")
 
 
+# ------------------------------------------------------------------------------------------------
+# frame codec: generator, independent (python) encoder for mutation seeds, round-trip oracle
+
+M_ROLES = [0, 1, 2, 3, 4, 5]        # roles the measure binding maps
+S_ROLES = [0, 6, 2, 4, 7]
+M_TYPES = [0, 1, 2, 3, 6, 7]
+S_TYPES = [0, 2, 3, 6]
+KIND = {0: "fixed", 1: "fixed", 2: "var", 3: "var", 4: "array", 5: "array", 6: "ptr", 7: "ptr"}
+M_ROLE_WIRE = {0: 1, 1: 2, 2: 3, 3: 4, 4: 5, 5: 6}
+S_ROLE_WIRE = {0: 1, 6: 2, 2: 3, 4: 4, 7: 5}
+M_TYPE_WIRE = {0: 1, 1: 2, 2: 3, 3: 4, 6: 5, 7: 6}
+S_TYPE_WIRE = {0: 1, 2: 2, 3: 3, 6: 4}
+
+
+def uvarint(x):
+    out = bytearray()
+    while x >= 128:
+        out.append(x % 128 + 128)
+        x //= 128
+    out.append(x)
+    return bytes(out)
+
+
+def pb_varint64(v):
+    return uvarint(v % 2**64)
+
+
+def pb_tagvalue(rng):
+    r = rng.random()
+    if r < 0.15:
+        return b"\x08\x00"
+    if r < 0.5:
+        s = rng.choice(STR_POOL).encode()
+        inner = (b"\x0a" + uvarint(len(s)) + s) if s else b""
+        return b"\x12" + uvarint(len(inner)) + inner
+    if r < 0.8:
+        v = rng.choice(INT_POOL)
+        inner = (b"\x08" + pb_varint64(v)) if v else b""
+        return b"\x22" + uvarint(len(inner)) + inner
+    if r < 0.9:
+        s = rng.choice(STR_POOL).encode()
+        return b"\x32" + uvarint(len(s)) + s
+    return b""
+
+
+def pb_fieldvalue(rng):
+    r = rng.random()
+    if r < 0.15:
+        return b"\x08\x00"
+    if r < 0.5:
+        v = rng.choice(INT_POOL)
+        inner = (b"\x08" + pb_varint64(v)) if v else b""
+        return b"\x1a" + uvarint(len(inner)) + inner
+    if r < 0.85:
+        bits = rng.choice([x for x in F64_POOL if x != 0x8000000000000000])
+        inner = (b"\x09" + struct.pack("<Q", bits)) if bits else b""
+        return b"\x2a" + uvarint(len(inner)) + inner
+    if r < 0.95:
+        s = rng.choice(STR_POOL).encode()
+        inner = (b"\x0a" + uvarint(len(s)) + s) if s else b""
+        return b"\x12" + uvarint(len(inner)) + inner
+    return b""
+
+
+def gen_cell(rng, ct):
+    null = rng.random() < 0.2
+    k = KIND[ct]
+    if k == "fixed":
+        if ct == 0:
+            v = rng.choice(INT_POOL) if rng.random() < 0.5 else rng.randrange(-2**63, 2**63)
+            return ("n" if null else "v") + "%d" % v
+        return ("n" if null else "v") + "%016x" % (rng.choice(F64_POOL + F64_NAN) if rng.random() < 0.6 else rng.getrandbits(64))
+    if k == "var":
+        n = rng.choice([0, 0, 1, 2, 5, 127, 128, 300]) if rng.random() < 0.3 else rng.randrange(0, 6)
+        return ("n" if null else "v") + bytes(rng.randrange(256) for _ in range(n)).hex()
+    if rng.random() < 0.1:
+        return ("n" if null else "v") + "~"
+    return ("n" if null else "v") + (pb_tagvalue(rng) if ct == 6 else pb_fieldvalue(rng)).hex()
+
+
+def gen_frame_case(rng):
+    codec = rng.choice(["m", "m", "s"])
+    roles, types = (M_ROLES, M_TYPES) if codec == "m" else (S_ROLES, S_TYPES)
+    n = rng.choice([0, 0, 1, 2, 3, 7, 8, 9, 15, 16, 17, 24, 33]) if rng.random() < 0.7 else rng.randrange(0, 40)
+    ncols = rng.choice([1, 1, 2, 3, 4, 6]) if rng.random() < 0.96 else 0
+    r = rng.random()
+    if r < 0.6:
+        sel = "-"
+        active = list(range(n))
+    elif r < 0.68:
+        sel = "e"
+        active = []
+    else:
+        k = rng.choice([1, 2, 3, 8, 9, n, n + 1, 20])
+        active = [rng.randrange(0, max(1, n + 2)) if rng.random() < 0.9 else rng.choice([65535, 1000, n + 5]) for _ in range(k)]
+        sel = ",".join(map(str, active)) if active else "e"
+    cols = []
+    for _ in range(ncols):
+        role = rng.choice(roles) if rng.random() < 0.94 else rng.randrange(8)
+        dt = rng.choice(types) if rng.random() < 0.94 else rng.randrange(8)
+        ct = dt if rng.random() < 0.96 else rng.choice(types)
+        name = bytes(rng.choice(b"abcxyz_09|\x00\xff") for _ in range(rng.choice([0, 1, 3, 5, 12])))
+        if rng.random() < 0.03:
+            name = bytes(rng.randrange(256) for _ in range(rng.choice([127, 128, 200])))
+        fam = bytes(rng.choice(b"defaultx") for _ in range(rng.choice([0, 0, 4, 7]))) if role == 4 or rng.random() < 0.1 else b""
+        if KIND[ct] == "array":
+            cells = "-"
+        else:
+            m = n if rng.random() < 0.85 else rng.randrange(0, n + 3)
+            cells = ",".join(gen_cell(rng, ct) for _ in range(m)) or "-"
+        cols.append("%d:%d:%d:%s:%s:%s" % (role, dt, ct, name.hex(), fam.hex(), cells))
+    return ("frame-enc %s %d %s %s" % (codec, n, sel, " ".join(cols))).rstrip()
+
+
+def parse_frame_case(line):
+    f = line.split(" ")
+    codec, n, sel = f[1], int(f[2]), f[3]
+    active = list(range(n)) if sel == "-" else ([] if sel == "e" else [int(x) for x in sel.split(",")])
+    cols = []
+    for c in f[4:]:
+        if not c:
+            continue
+        role, dt, ct, name, fam, cells = c.split(":")
+        cols.append((int(role), int(dt), int(ct), name, fam, [] if cells == "-" else cells.split(",")))
+    return codec, n, active, cols
+
+
+def frame_expect(line):
+    """expected (class, decoded-text) of a frame-enc case by the documented contract:
+    ERR role / ERR type for unmapped shapes, else the active rows come back, null slots cleared"""
+    codec, n, active, cols = parse_frame_case(line)
+    rw, tw = (M_ROLE_WIRE, M_TYPE_WIRE) if codec == "m" else (S_ROLE_WIRE, S_TYPE_WIRE)
+    for role, dt, ct, name, fam, cells in cols:
+        if role not in rw:
+            return "ERR role", None
+        if dt not in tw or ct != dt:
+            return "ERR type", None
+    out = ["ok %d" % len(active)]
+    for role, dt, ct, name, fam, cells in cols:
+        k = KIND[ct]
+        cs = []
+        for i in active:
+            c = cells[i] if i < len(cells) else None
+            if c is not None and c[0] == "n":
+                cs.append("n")
+            elif k == "fixed":
+                cs.append("v" + (c[1:] if c is not None else ("0" if ct == 0 else "0" * 16)))
+            elif k == "var":
+                cs.append("v" + (c[1:] if c is not None else ""))
+            else:
+                cs.append("v" + ("" if c is None or c[1:] == "~" else c[1:]))
+        out.append("%d:%d:%s:%s:%s" % (role, ct, name, fam, ",".join(cs) if cs else "-"))
+    return "ok", " ".join(out)
+
+
+def py_encode(line):
+    """independent encoder (only used to seed the decoder fuzzing with well-formed frames)"""
+    codec, n, active, cols = parse_frame_case(line)
+    rw, tw = (M_ROLE_WIRE, M_TYPE_WIRE) if codec == "m" else (S_ROLE_WIRE, S_TYPE_WIRE)
+    out = bytearray(b"\x00VFR" + bytes([3 if codec == "m" else 1]) + uvarint(len(active)) + uvarint(len(cols)))
+    for role, dt, ct, name, fam, cells in cols:
+        if role not in rw or dt not in tw or ct != dt:
+            return None
+        out += bytes([rw[role], tw[dt]])
+        nb, fb = bytes.fromhex(name), bytes.fromhex(fam)
+        out += uvarint(len(nb)) + nb + uvarint(len(fb)) + fb
+        nulls = [(i < len(cells) and cells[i][0] == "n") for i in active]
+        bm = bytearray((len(active) + 7) // 8)
+        for j, v in enumerate(nulls):
+            if v:
+                bm[j // 8] |= 1 << (j % 8)
+        out += bm
+        for j, i in enumerate(active):
+            c = cells[i] if i < len(cells) else None
+            k = KIND[ct]
+            if k == "fixed":
+                if c is None:
+                    out += b"\x00" * 8
+                elif ct == 0:
+                    out += struct.pack("<Q", int(c[1:]) % 2**64)
+                else:
+                    out += struct.pack("<Q", int(c[1:], 16))
+            else:
+                v = b"" if (c is None or c[0] == "n" or c[1:] == "~") else bytes.fromhex(c[1:])
+                out += uvarint(len(v)) + v
+    return bytes(out)
+
+
+def mutate_frame(rng, raw):
+    b = bytearray(raw)
+    r = rng.random()
+    if r < 0.25 and b:
+        for _ in range(rng.choice([1, 1, 2, 4])):
+            i = rng.randrange(len(b))
+            b[i] ^= 1 << rng.randrange(8)
+    elif r < 0.4 and b:
+        b = b[:rng.randrange(len(b))]
+    elif r < 0.5:
+        b += bytes(rng.randrange(256) for _ in range(rng.choice([1, 2, 8])))
+    elif r < 0.65 and len(b) > 5:
+        # rewrite NumRows / NumCols with hostile varints
+        v = rng.choice([uvarint(2**64 - 1), uvarint(2**63), uvarint(2**32), uvarint(len(b)), uvarint(len(b) + 1), b"\xff" * 10 + b"\x01",
+                        b"\xff" * 9 + b"\x02", b"\x80" * 9 + b"\x01", b"\x80\x00", uvarint(rng.randrange(0, 70))])
+        b = b[:5] + v + (b[6:] if rng.random() < 0.5 else uvarint(rng.choice([0, 1, 2, 2**40])) + b[7:])
+    elif r < 0.75 and len(b) > 8:
+        i = rng.randrange(5, len(b))
+        b[i:i + 1] = rng.choice([b"\xff\xff\xff\xff\x0f", b"\x80\x80\x80\x80\x80\x80\x80\x80\x80\x80\x80", b"\x7f", b"\x00"])
+    elif r < 0.85 and b:
+        i = rng.randrange(len(b))
+        b[i] = rng.randrange(256)
+    elif r < 0.93:
+        b = bytearray(rng.randrange(256) for _ in range(rng.choice([0, 1, 4, 6, 7, 8, 20])))
+        if rng.random() < 0.7:
+            b[:5] = b"\x00VFR" + bytes([rng.choice([3, 1])])
+    else:
+        b[4:5] = bytes([rng.randrange(256)])
+    return bytes(b)
+
+
+# ------------------------------------------------------------------------------------------------
+# dispatch shapes
+
+def gen_dispatch_case(rng):
+    fams = ["default", "extra"][:rng.choice([1, 2, 2])]
+    names = ["svc", "k", "z", "w"]
+    rng.shuffle(names)
+    ntag = rng.choice([1, 2, 3, 4])
+    sfam = {f: [] for f in fams}
+    for t in names[:ntag]:
+        sfam[rng.choice(fams)].append(t)
+    sfam = {f: ts for f, ts in sfam.items() if ts}
+    if not sfam:
+        sfam = {"default": [names[0]]}
+    alltags = [t for ts in sfam.values() for t in ts]
+    fam_of = {t: f for f, ts in sfam.items() for t in ts}
+    fields = ["v", "f", "s"][:rng.choice([1, 2, 3])]
+    ftypes = {"v": "i", "f": "f", "s": "s"}
+    rules = [("r" + t, t, rng.random() < 0.3) for t in alltags if rng.random() < 0.6]
+    S = ";".join("%s:%s" % (f, ",".join(t + ".s" for t in ts)) for f, ts in sfam.items())
+    Fs = ",".join("%s.%s" % (f, ftypes[f]) for f in fields)
+    R = ",".join("%s:%s:%d" % (n, t, int(ns)) for n, t, ns in rules) or "-"
+    bad = rng.random() < 0.45     # at most a few defects per case, often none
+
+    def maybe(p):
+        return bad and rng.random() < p
+    # projection
+    if rng.random() < 0.1:
+        tp = "-"
+        tpl = []
+    else:
+        tpl = []
+        for f, ts in sfam.items():
+            pick = [t for t in ts if rng.random() < 0.7]
+            if maybe(0.12):
+                pick.append("nosuch")
+            if pick:
+                tpl.append((f if not maybe(0.08) else "wrongfam", pick))
+        tp = ";".join("%s:%s" % (f, ",".join(ts)) for f, ts in tpl)
+    if rng.random() < 0.1:
+        fp = "-"
+        fpl = []
+    else:
+        fpl = [f for f in fields if rng.random() < 0.7]
+        if maybe(0.12):
+            fpl.insert(rng.randrange(len(fpl) + 1), "badf")
+        fp = ",".join(fpl)
+    r = rng.random()
+    if r < 0.5:
+        ob = "-"
+    elif r < 0.65:
+        ob = "@time"
+    elif rules and not maybe(0.3):
+        ob = rng.choice(rules)[0]
+    else:
+        ob = "rnosuch"
+    r = rng.random()
+    if r < 0.45:
+        gb = "-"
+    elif maybe(0.1):
+        gb = "@empty"
+    else:
+        f = rng.choice(list(sfam))
+        ts = rng.sample(sfam[f], rng.randrange(1, len(sfam[f]) + 1))
+        if maybe(0.1):
+            ts.append("nosuch")
+        if maybe(0.08):
+            ts = []
+        g = [(f if not maybe(0.08) else "nofam", ts)]
+        if maybe(0.15) or (len(sfam) > 1 and rng.random() < 0.05):
+            g.append((rng.choice(list(sfam)), [rng.choice(alltags)]))
+        gb = ";".join("%s:%s" % (f, ",".join(ts)) for f, ts in g)
+    if rng.random() < 0.5:
+        agg = "-"
+        af = None
+    else:
+        af = rng.choice(fields) if not maybe(0.12) else "nosuchf"
+        agg = "%s:%s" % (rng.choice(["SUM", "COUNT", "MIN", "MAX", "MEAN"]) if not maybe(0.1) else "UNSPEC", af)
+    if rng.random() < 0.6:
+        top = "-"
+    else:
+        cand = ([af] if af else []) + fpl + fields
+        tf = rng.choice(cand) if not maybe(0.1) else "nosuchf"
+        top = "%d:%s" % (rng.choice([1, 3, 0]), tf)
+    return "dispatch E%d S=%s F=%s R=%s EN=%s tp=%s fp=%s ob=%s gb=%s agg=%s top=%s" % (
+        0 if rng.random() < 0.06 else 1, S, Fs, R, alltags[0], tp, fp, ob, gb, agg, top)
+
+
+# ------------------------------------------------------------------------------------------------
+# stream / trace sorted-merge operators against their specification
+
+def gen_smerge_case(rng):
+    desc = rng.random() < 0.5
+    bs = rng.choice([1, 2, 3, 8, 1024])
+    if rng.random() < 0.6:
+        keyed = rng.random() < 0.5
+        maxrows = rng.choice([0, 0, 1, 2, 3, 5, 100])
+        batches = []
+        for _ in range(rng.choice([1, 2, 3, 4])):
+            rows = []
+            for _ in range(rng.choice([0, 1, 2, 4, 7])):
+                ts = rng.choice([0, 1, 2, 3, 5, 2**62, 10])
+                el = rng.choice([1, 2, 3, 4, 5, -1, 2**63 - 1])
+                if keyed:
+                    rows.append("%d:%d:%s" % (ts, el, bytes(rng.choice(b"ab\x00\xff") for _ in range(rng.choice([0, 1, 2]))).hex()))
+                else:
+                    rows.append("%d:%d" % (ts, el))
+            batches.append(",".join(rows) or "-")
+        return "smerge s %s %d %d %s %s" % ("desc" if desc else "asc", bs, maxrows, "k" if keyed else "t", "|".join(batches))
+    iters = []
+    for _ in range(rng.choice([1, 2, 3, 4])):
+        items = []
+        for _ in range(rng.choice([0, 1, 2, 4, 6])):
+            items.append((rng.choice([-5, 0, 1, 2, 3, 7, 2**62, -2**63]), rng.randrange(4), rng.randrange(3),
+                          bytes([rng.choice(b"abcdef")]).hex()))
+        items.sort(key=lambda x: x[0], reverse=desc)
+        iters.append(",".join("%d:%d:%d:%s" % it for it in items) or "-")
+    return "smerge t %s %d %s" % ("desc" if desc else "asc", bs, "|".join(iters))
+
+
+def smerge_oracle(line, g):
+    f = line.split(" ")
+    desc = f[2] == "desc"
+    if g.startswith("ERR"):
+        return "operator failed: " + g
+    out = [] if g == "-" else g.split(",")
+    if f[1] == "s":
+        maxrows, keyed = int(f[4]), f[5] == "k"
+        rows = []
+        for b in f[6].split("|"):
+            if b != "-":
+                rows += b.split(",")
+
+        def key(r):
+            p = r.split(":")
+            return bytes.fromhex(p[2]) if keyed else int(p[0])
+        idx = sorted(range(len(rows)), key=lambda i: key(rows[i]), reverse=desc)        # python's sort is stable,
+        if desc:                                                                              # reverse=True keeps ties in input order too
+            pass
+        want = [rows[i] for i in idx]
+        if maxrows > 0:
+            seen, cut = set(), len(want)
+            for i, r in enumerate(want):
+                e = r.split(":")[1]
+                if e in seen:
+                    continue
+                if len(seen) == maxrows:
+                    cut = i
+                    break
+                seen.add(e)
+            want = want[:cut]
+        if out != want:
+            return "stream sorted merge: want %s got %s" % (",".join(want)[:200], g[:200])
+        return None
+    cands = []
+    for it in f[4].split("|"):
+        if it != "-":
+            cands += it.split(",")
+    keys = [int(r.split(":")[0]) for r in out]
+    if any((a < b) if desc else (a > b) for a, b in zip(keys, keys[1:])):
+        return "trace sorted merge: output keys not ordered: " + g[:200]
+    pls = [r.split(":")[3] for r in out]
+    if len(set(pls)) != len(pls) or set(pls) != {c.split(":")[3] for c in cands}:
+        return "trace sorted merge: payload set wrong: " + g[:200]
+    for r in out:
+        if r not in cands:
+            return "trace sorted merge: row %s is not an input" % r
+        ks = [int(c.split(":")[0]) for c in cands if c.split(":")[3] == r.split(":")[3]]
+        if int(r.split(":")[0]) != (max(ks) if desc else min(ks)):
+            return "trace sorted merge: payload %s kept with key %s, first in merge order is %d" % (r.split(":")[3], r.split(":")[0], max(ks) if desc else min(ks))
+    return None
+
+
+# ------------------------------------------------------------------------------------------------
+# the check
+
+KNOWN_IDS = ["F15a", "F15b", "F15c", "F15c2", "F15d", "F15e", "F15f", "F15g", "F15h", "F15i", "F15j", "F15m", "F15n",
+             "F15p1", "F15p2", "F15p3", "F15p4", "F15p6", "F15q", "F15r", "F15s", "F15t", "F15z"]
+
+
+class C15(vlib.Spec):
+    prop = "C15"
+    level = "translation_validation"
+    lean_modules = ["Banyan.Props.C15", "Banyan.Tie.C15"]
+    theorems = ["Banyan.C15." + t for t in [
+        "uvarint_putUvarint", "unpackBits_packBits", "ofLE64_le64",
+        "frame_encode_ok", "frame_roundtrip", "frame_roundtrip_measure", "frame_roundtrip_stream",
+        "frame_roundtrip_zero_cols_counterexample", "frame_decoder_total", "frame_decoder_alloc_bound",
+        "dispatch_total", "dispatch_fallthrough_iff", "dispatch_accept_supported", "dispatch_supported_accept",
+        "measureCodec_ok", "streamCodec_ok",
+    ]] + ["Banyan.Tie.C15." + t for t in [
+        "magic_tie", "measure_version_tie", "stream_version_tie", "min_header_tie", "default_limit_tie",
+        "measure_roles_tie", "measure_types_tie", "stream_roles_tie", "stream_types_tie", "coltype_iota_tie", "role_iota_tie"]]
+    go_driver = "c15"
+    lean_driver = "C15"
+    counts = {"quick": 180, "thorough": 1500}          # datasets; each carries 8 requests (6 standalone + 2 distributed)
+    trusted_base = [
+        "Lean 4.33.0 kernel",
+        "correspondence: Go driver hooks/banyand/internal/verifdrv/c15 (real frame codec, real plan.Dispatch) vs lean_exe drv_c15, byte exact",
+        "translation validation harness: hooks/banyand/{measure,query,dquery}/zz_verif_c15.go (write glue mirrors writeCallback.handle/Rev; "
+        "query processors are the real measureQueryProcessor / measureInternalQueryProcessor / dquery measureQueryProcessor; "
+        "in-process broadcaster passes request/response bodies through proto.Marshal and data.TopicResponseMap)",
+        "fact extractor tools/extract.d/C15.py (magic, wire versions, role/type wire numbers, iota orders, default limit)",
+        "pbgen-regenerated protobuf Go code; google.golang.org/protobuf Marshal/Unmarshal for TagValue/FieldValue cells (parameter protoOk in the model)",
+        "Go encoding/binary (Uvarint/AppendUvarint/LittleEndian) modelled from its source",
+        "the storage layer below measure.Query (C01-C03) is shared by both pipelines up to Pull vs PullBatch",
+    ]
+    assumptions = [
+        "duplicates of one (series, timestamp) carry distinct versions (C02's precondition; equal versions are resolved by heap order, which differs between the pipelines)",
+        "index-mode measures carry no array tags (storage cannot decode them, C01's area)",
+        "stream and trace engines are covered at the frame-codec level only (stream binding of the shared codec); their query pipelines are not driven",
+        "criteria are limited to what inverted.BuildQuery accepts (entity tags eq/in; indexed tags range/set operators): criteria semantics are C08's",
+        "multi-group (cross measure group) queries are not generated",
+        "float cells are compared as bit patterns; -0.0 is kept out of proto cells of the frame generator",
+    ]
+    rule = ("datasets: generated measure schema (1-3 tag families, entity 1-3 tags, int/float/string/binary fields, index rules, "
+            "optional index mode, 1-3 shards, 1-3 data nodes) x 1-4 write batches (one mem part per table and batch, optional flush) "
+            "with duplicate timestamps/versions, null tags/fields, edge ints/floats; requests: 80% contract-respecting "
+            "(projection, criteria, order_by time/index rule, limit/offset, group_by, SUM/COUNT/MIN/MAX/MEAN, top-N), 20% free-form "
+            "including shapes either pipeline rejects; each request runs through the real processors with the vectorized flag off and on "
+            "(standalone) or through liaison + data nodes with proto wire vs raw-frame wire (distributed). "
+            "frames: random RecordBatch shapes (selection vectors, short/long columns, null slots, unmapped roles/types) and mutated frame bytes; "
+            "dispatch: request shapes with 0-3 seeded defects. non-trivial = vectorized path answered with >= 1 row")
+
+    def __init__(self):
+        self.meta = {}
+
+    # ---- generation
+    def cases(self, rng, n):
+        out = []
+        for i in range(n):
+            s, ds = gen_dataset(rng, i)
+            d = jd(ds)
+            for j in range(8):
+                rq = gen_request_valid(rng, s) if rng.random() < 0.8 else gen_request(rng, s)
+                out.append("%s %s %s" % ("par" if j < 6 else "dist", d, jd(rq)))
+        nf = max(200, n * 6)
+        frames = [gen_frame_case(rng) for _ in range(nf)]
+        out += frames
+        for i in range(nf):
+            src = rng.choice(frames)
+            codec = src.split(" ")[1]
+            raw = py_encode(src)
+            if raw is None or rng.random() < 0.1:
+                raw = bytes(rng.randrange(256) for _ in range(rng.choice([0, 3, 7, 9, 30])))
+            elif rng.random() < 0.85:
+                raw = mutate_frame(rng, raw)
+            if rng.random() < 0.05:
+                codec = "s" if codec == "m" else "m"
+            out.append("frame-dec %s x%s" % (codec, raw.hex()))
+        out += [gen_dispatch_case(rng) for _ in range(max(300, n * 4))]
+        out += [gen_smerge_case(rng) for _ in range(max(200, n * 2))]
+        return out
+
+    def kind(self, line):
+        return line.split(" ", 1)[0]
+
+    # ---- oracle
+    def oracle(self, line, g):
+        k = self.kind(line)
+        if g.startswith("PANIC") or g.startswith("CRASH"):
+            return ("violation", "implementation crashed: " + g[:200])
+        if k in ("par", "dist"):
+            if g.startswith("SETUP-ERR") or g.startswith("bad-op"):
+                return ("violation", "harness could not set the case up: " + g[:200])
+            p = split_par(g)
+            if p is None:
+                return ("violation", "unparsable driver output " + g[:200])
+            row, vec = p[0], p[1]
+            f = line.split(" ")
+            if row == vec:
+                return None
+            v = classify_divergence(json.loads(f[1]), json.loads(f[2]), row, vec, k == "dist")
+            return v
+        if k == "frame-enc":
+            want, dec = frame_expect(line)
+            if want != "ok":
+                return None if g == want else ("violation", "encode of an unmapped shape: want %s got %s" % (want, g[:100]))
+            parts = g.split(" ", 1)
+            if len(parts) != 2:
+                return ("violation", "encode refused a supported batch: " + g[:100])
+            if parts[1] != dec:
+                _, n, active, cols = parse_frame_case(line)
+                if not cols and len(active) > len(bytes.fromhex(parts[0])) and parts[1] == "ERR trunc":
+                    return ("known", "F15z", "a frame without columns but with more rows than header bytes is refused by its own decoder")
+                return ("violation", "frame round trip: want %s got %s" % (dec[:200], parts[1][:200]))
+            return None
+        if k == "frame-dec":
+            if not (g.startswith("ok ") or g.startswith("ERR ")):
+                return ("violation", "decoder outcome " + g[:100])
+            return None
+        if k == "smerge":
+            m = smerge_oracle(line, g)
+            return ("violation", m) if m else None
+        if k == "dispatch":
+            if g.startswith("INCONSISTENT") or g.startswith("accept-") or g.startswith("SETUP") or g.startswith("reject other"):
+                return ("violation", "dispatch contract: " + g[:200])
+            if " E0 " in line and g != "fallthrough":
+                return ("violation", "flag off must fall through, got " + g)
+            if " E1 " in line and g == "fallthrough":
+                return ("violation", "flag on must not fall through")
+            return None
+        return None
+
+    def compare(self, line, g, l):
+        k = self.kind(line)
+        if k in ("par", "dist", "smerge"):
+            return True
+        if g == l:
+            return True
+        if k in ("frame-dec", "frame-enc"):
+            # proto pass-through cells: the model keeps the raw bytes, Go re-marshals what it unmarshalled, and only Go
+            # can refuse bytes that are not a valid message
+            if g == "ERR proto":
+                return "abstain"
+            gp, lp = g.split(" "), l.split(" ")
+            if len(gp) == len(lp) and gp[:2] == lp[:2]:
+                for a, b in zip(gp[2:], lp[2:]):
+                    if a == b:
+                        continue
+                    fa, fb = a.split(":"), b.split(":")
+                    if fa[:4] != fb[:4] or fa[1] not in ("6", "7"):
+                        return False
+                    ca, cb = fa[4].split(","), fb[4].split(",")
+                    if len(ca) != len(cb) or any((x == "n") != (y == "n") for x, y in zip(ca, cb)):
+                        return False
+                return "abstain"
+        return False
+
+    def nontrivial(self, line, g):
+        k = self.kind(line)
+        if k in ("par", "dist"):
+            p = split_par(g)
+            if p and status(p[1]) == "OK" and rows_of(p[1]):
+                return hash(line)
+            return None
+        return hash(line)
+
+
+SPEC = C15()
+
+
+def main(tier):
+    """std_check with the evidence adjusted to the translation-validation reading: programs = row/vector pairs compared."""
+    import os
+    spec = SPEC
+    seed = vlib.seed_from_env()
+    rng = vlib.Rng(seed * 1000003 + sum(map(ord, spec.prop)))
+    R = vlib.Result(spec.prop, tier, seed, spec.level)
+    R.assumptions = list(spec.assumptions)
+    n = int(os.environ.get("VERIF_C15_N", spec.counts[tier]))
+    extra = {}
+    try:
+        vlib.static_stage(spec, R)
+        go = vlib.go_build_driver(spec.go_driver)
+        lean = vlib.lean_driver(spec.lean_driver)
+        lines = vlib.corpus_lines(spec.prop) + spec.cases(rng, n)
+        env = vlib.goenv()
+        env["VERIF_SCRATCH"] = vlib.SCRATCH
+        os.makedirs(vlib.SCRATCH, exist_ok=True)
+        import time
+        t0 = time.time()
+        go_out = vlib.run_lines(go, lines, env=env, timeout=7200)
+        t1 = time.time()
+        lean_out = vlib.run_lines(lean, lines, timeout=7200)
+        vlib.log("[C15] %d cases: go %.1fs, lean %.1fs" % (len(lines), t1 - t0, time.time() - t1))
+        known = {k["id"] for k in vlib.load_known(spec.prop)}
+        if os.environ.get("VERIF_C15_ASSUME_KNOWN") == "1":      # builder self-test: pretend the proposed known: lines are listed
+            known |= set(KNOWN_IDS)
+        programs = accepted = rejected_both = vec_only_reject = row_only_reject = divergences = 0
+        dis = []
+        abst = 0
+        for line, g, l in zip(lines, go_out, lean_out):
+            kd = spec.kind(line)
+            R.count("kind:" + kd)
+            nt = spec.nontrivial(line, g)
+            if nt is not None:
+                R.nontrivial.add(nt)
+            if kd in ("par", "dist"):
+                programs += 1
+                p = split_par(g)
+                if p:
+                    rs, vs = status(p[0]), status(p[1])
+                    R.count("%s:row=%s/vec=%s" % (kd, rs, vs))
+                    if vs == "OK":
+                        accepted += 1
+                        R.count(kd + ":vec-accepted")
+                    elif rs != "OK":
+                        rejected_both += 1
+                        R.count(kd + ":rejected-by-both")
+                    if p[0] != p[1]:
+                        divergences += 1
+            if len(R.samples) < 12 and R.hist.get("kind:" + kd, 0) <= 3:
+                R.samples.append({"case": line[:300], "impl": g[:300], "model": (l or "")[:200]})
+            v = spec.oracle(line, g)
+            if v is not None:
+                if v[0] == "known" and v[1] not in known:
+                    v = ("violation", "(finding %s is not listed in KNOWN_FINDINGS.txt) %s" % (v[1], v[2]))
+                if v[0] == "known":
+                    R.known_hits.setdefault(v[1], "%s | case: %s" % (v[2], line[:160]))
+                    R.count("known:" + v[1])
+                    continue
+                R.count("oracle-violations")
+                if sum(1 for x in R.violations if x["kind"] == "oracle") < 8:
+                    R.violation("oracle", v[1], {"case": line, "impl_output": g, "driver": spec.go_driver,
+                                                 "how": "echo '<case>' | VERIF_SCRATCH=/verif/.scratch .build/bin/drv_c15"})
+                continue
+            c = spec.compare(line, g, l)
+            if c == "abstain":
+                abst += 1
+                R.count("model-abstains(proto cell)")
+            elif not c:
+                dis.append((line, g, l))
+        R.evaluations = programs
+        R.count("disagreements", len(dis))
+        if dis:
+            R.oblige("correspondence model=implementation", False,
+                     "%d disagreements; first: case=%s impl=%s model=%s" % (len(dis), dis[0][0][:300], dis[0][1][:300], dis[0][2][:300]))
+            if not any(v["kind"] == "oracle" for v in R.violations):
+                d = dis[0]
+                R.violation("correspondence", "model and implementation disagree; property oracle found no failing input",
+                            {"case": d[0], "impl_output": d[1], "model_output": d[2]}, no_input=True)
+        else:
+            R.oblige("correspondence model=implementation on %d codec/dispatch cases" % (len(lines) - programs), True)
+        acc_rate = accepted / max(1, programs)
+        R.oblige("generator exercises the vectorized path (accepted %.0f%% of %d programs, need >= 50%%)" % (100 * acc_rate, programs),
+                 acc_rate >= 0.5, "only %.1f%% accepted" % (100 * acc_rate))
+        extra = {"programs": programs, "programs_vec_accepted": accepted, "programs_rejected_by_both": rejected_both,
+                 "disagreements_checked": divergences, "codec_and_dispatch_cases": len(lines) - programs,
+                 "model_abstentions": abst}
+    except vlib.BuildError as e:
+        R.oblige("build", False, str(e)[-3000:])
+    checker = "cd /verif/lean && lake build %s && lake env lean ../.build/audit/Audit_C15.lean  (# print axioms)" % " ".join(spec.lean_modules)
+    return R.finish(spec.trusted_base, checker, spec.rule, extra)
+
+
+def replay(path):
+    return vlib.std_replay(SPEC, path)
